@@ -24,6 +24,7 @@ see `AsyncInotifyWrapper.dir_loop`.
 import asyncio
 import contextlib
 import logging
+import os
 import sys
 from collections.abc import Generator
 
@@ -221,6 +222,18 @@ class Watcher:
                 if new_file_hash == old_hashes[path]:
                     await self.reporter("UNCHANGED", path)
                     self.updated.discard(path)
+                elif new_file_hash.is_unknown and path in self.updated:
+                    # The last item about this path was an update, yet it is not there:
+                    # e.g. a write reported through the watch of a directory that was renamed
+                    # meanwhile, which inotify still reports under its old path.
+                    self.updated.discard(path)
+                    self.deleted.add(path)
+
+            # The same for a path that was not re-hashed (a glob match has no node of its own).
+            for path in sorted(self.updated - new_hashes.keys()):
+                if not os.path.lexists(path):
+                    self.updated.discard(path)
+                    self.deleted.add(path)
 
             # Mark steps pending if they use nglob patterns that have different matches.
             self.workflow.process_nglob_changes(self.deleted, self.updated)
